@@ -42,7 +42,7 @@ CONF = {
                 big=[("big", 80, 1000), ("kinds3", 300, 3000)], enum=True),
     "C05": dict(prefixes=("C05.",), builds=("pure",),
                 model=[("kinds3", 500, 5000), ("faults", 300, 3000), ("sync", 250, 2500), ("spawn", 200, 2000),
-                       ("syncfaults", 150, 2000), ("throw", 250, 2500), ("ival", 300, 3000)],
+                       ("syncfaults", 150, 2000), ("throw", 250, 2500), ("ival", 300, 3000), ("overflowbatch", 250, 2500)],
                 monitor_only=[("nestflush", 500, 5000)],
                 big=[("kinds3", 400, 4000), ("big", 40, 600)], enum=True),
     "C06": dict(prefixes=("C06.",), builds=("pure",),
@@ -219,7 +219,7 @@ def main():
             ch = [plang.chain(d, v) for d in depths for v in ("plain", "list", "batch")]
             fam += [("chain", p) for p in ch]
             cov["chain_programs_validated_by_tlc"] = "chains of depth %s (plain / through lists / batch at the bottom): model-checked and their real traces validated" % (depths,)
-        if pid == "C08":
+        if pid in ("C08", "C05"):
             en = plang.enum_overflow()
             fam += [("enum_overflow", p) for p in en]
             cov["enumerated_family"] = "runaway recursion with 1-3 readers blocked on a pending batch, then a second computation: %d programs, all schedules" % len(en)
